@@ -132,6 +132,7 @@ func c17A(c *core.Case) {
 	case 1:
 		if cur > 3 {
 			spec.NewPageN = cur - uint32(1+c.Rng.IntN(int(cur-2)))
+			spec.DirtyCut = uint32(c.Rng.IntN(3)) // tail pages modified and spilled before they are cut off
 		}
 	}
 	for j := 0; j < 2+c.Rng.IntN(12); j++ {
